@@ -105,6 +105,20 @@ CHECKS = {
         note=('Trusted: the predicate itself (dump.h) and the public accessors it reads. Crashes while building are C01\'s '
               'subject and only counted. LSC templates are exempt from the initial-location clause.'),
     ),
+    'C16': dict(
+        engine='oracle-server + Hypothesis models x deterministic (label, token, fault) and (declaration index, token, fault) enumeration (harness/py/prop_C16.py, faults.py, tokenizer.py)',
+        technique='fault injection with a metamorphic oracle: faulty vs fault-free canonical document dumps compared with the faulted label masked, attribution of every new diagnostic, prefix preservation of declarations before a faulted declaration',
+        category='fault_enumeration',
+        text=('For each generated accepted model with layout noise every non-declaring label x spread token positions x fault '
+              'kind is enumerated: the document built by DocumentBuilder alone (and, for semantic faults, the one after static '
+              'analysis) must equal the fault-free document outside the faulted label, and every diagnostic the fault-free run '
+              'does not have must point into the faulted block. For declaration blocks every declaration index x token x '
+              '{truncation, token deletion, stray token, unbalanced bracket, unterminated comment} is enumerated and all '
+              'declarations before the faulted one must be present and unchanged.'),
+        design_ref='DESIGN.md 4/C16',
+        note=('XML input. One recorded finding (a failed exponentialrate label replaces the invariant of the same location) is '
+              'excluded by exact descriptor and counted; one cascading warning was repaired in /repo (fix: commit 8ba02a2).'),
+    ),
     'C18': dict(
         engine='rapidcheck + exhaustive loops (harness/cpp/c18.cpp)',
         technique='exhaustive enumeration over int8_t + rapidcheck property-based testing over int32_t/double against set semantics in wide arithmetic',
